@@ -1522,6 +1522,12 @@ impl<Front: SocketHandler + std::fmt::Debug, L: ListenerHandler + L7ListenerHand
                     let answers = answers_rc.borrow();
                     let stream = &mut self.context.streams[stream_id];
                     stream.context.access_log_message = Some("backend_timeout");
+                    // The exchange on the backend connection is unfinished: its
+                    // late response must not answer the next request, so the
+                    // connection cannot go back to the keep-alive pool (the H1
+                    // `end_stream` below would otherwise take the 504 placed in
+                    // `stream.back` for a complete backend response).
+                    stream.context.keep_alive_backend = false;
                     set_default_answer(stream, front_readiness, 504, &answers);
                     should_write = true;
                 } else {
@@ -1532,6 +1538,7 @@ impl<Front: SocketHandler + std::fmt::Debug, L: ListenerHandler + L7ListenerHand
                     self.context.unlink_stream(stream_id);
                     let stream = &mut self.context.streams[stream_id];
                     stream.context.access_log_message = Some("backend_response_timeout");
+                    stream.context.keep_alive_backend = false;
                     forcefully_terminate_answer(stream, front_readiness, H2Error::InternalError);
                     should_write = true;
                 }
